@@ -10,6 +10,7 @@ import sys
 import elastic_transport
 import elasticsearch
 
+from esrally import track
 from esrally.driver import runner
 
 from symx import core
@@ -331,6 +332,64 @@ def registered_retryables(sl):
         observe("after the last attempt the timeout is raised", how == "raise" and isinstance(val, elasticsearch.exceptions.ConnectionTimeout))
 
 
+RETRY_SETTINGS = {"retries": 3, "retry-until-success": False, "retry-wait-period": 0.25, "retry-on-timeout": True, "retry-on-error": True}
+# minimal operation parameters for the documented retryable operation types that have a parameter source of their own
+MINIMAL_PARAMS = {"create-index": {}, "delete-index": {}, "create-data-stream": {}, "delete-data-stream": {}, "create-index-template": {},
+                  "delete-index-template": {}, "create-component-template": {}, "delete-component-template": {}, "create-composable-template": {},
+                  "delete-composable-template": {}}
+
+
+def retry_settings_reach_the_runner(sl):
+    """a task's retry settings are part of the operation's parameters; they have to survive the operation's PARAMETER SOURCE, because
+    Retry reads them from the dict the source hands out for every call. Real param sources on a track that declares one index, data
+    stream and template of every kind; then the registered runner is called with what the source produced (delegate stubbed)."""
+    global SLEEPS
+    SLEEPS = []
+    from esrally.track import params as tparams
+
+    v = fresh_int("operation", 0, len(DOCUMENTED) - 1)
+    op_type = DOCUMENTED[core.concretize(v.z) if core.is_sym(v) else v]
+    core.note("operation", op_type)
+    trk = track.Track("t", indices=[track.Index("idx", body={})], data_streams=[track.DataStream("ds")],
+                      templates=[track.IndexTemplate("tpl", "idx-*", {"settings": {}})],
+                      composable_templates=[track.IndexTemplate("ctpl", "idx-*", {"template": {"settings": {}}})],
+                      component_templates=[track.ComponentTemplate("comp", {"template": {"settings": {}}})])
+    given = dict(MINIMAL_PARAMS.get(op_type, {}), **RETRY_SETTINGS)
+    given["operation-type"] = op_type
+    try:
+        source = tparams.param_source_for_operation(op_type, trk, given, "task")
+        produced = source.partition(0, 1).params()
+    except Exception as e:  # noqa: BLE001
+        core.note("parameter source raised", repr(e))
+        observe("the operation's parameter source accepts the minimal parameters plus the retry settings", False)
+        return
+    core.trace("keys", len(produced))
+    core.note("produced keys", sorted(produced))
+    for k, want in RETRY_SETTINGS.items():
+        observe("retry setting '%s' reaches the runner's parameters" % k, k in produced and produced[k] == want)
+    # and they take effect: one timeout, then success -> two attempts with the configured pause
+    runner.register_default_runners()
+    registered = runner.runner_for(op_type)
+    x, retry = registered, None
+    for _ in range(8):
+        if isinstance(x, runner.Retry):
+            retry = x
+            break
+        x = getattr(x, "delegate", None) or getattr(x, "runnable", None)
+        if x is None:
+            break
+    if retry is None:
+        return
+    d = Delegate(lambda i: CONN_TIMEOUT if i == 0 else OK_DICT)
+    real_delegate, retry.delegate = retry.delegate, d
+    try:
+        with shadowed(runner, (), extra={"asyncio": FakeAsyncio}):
+            how, val = drive(registered({"default": object()}, produced))
+    finally:
+        retry.delegate = real_delegate
+    observe("with retries configured on the task a timeout is retried after the configured pause", d.calls == 2 and SLEEPS == [0.25] and how == "ret")
+
+
 def enter_exit(sl):
     """__aenter__/__aexit__ delegate exactly once"""
     calls = []
@@ -373,5 +432,10 @@ HARNESSES = [
                     "timeouts before success": "0..3", "retries": "0..3"},
             stubs=["the innermost runner is replaced by a stub delegate (the operation's own request is not issued)", "asyncio.sleep recorder"],
             doc="documented retryable operations are registered behind Retry and retry end-to-end through the registered wrappers"),
+    Harness("retry_settings_reach_the_runner", retry_settings_reach_the_runner, "bounded-exhaustive", lambda tier: [{}],
+            reads=READS + [runner.register_default_runners],
+            stubs=["the innermost runner is replaced by a stub delegate", "asyncio.sleep recorder"],
+            bounds={"operations": "the %d documented retryable operation types, each through its real parameter source on a track with one index, data stream and template of every kind" % len(DOCUMENTED)},
+            doc="retry settings survive the operation's parameter source and take effect"),
     Harness("enter_exit", enter_exit, "bounded-exhaustive", lambda tier: [{}], reads=READS, doc="context manager delegation"),
 ]
